@@ -30,6 +30,10 @@ type NetPolicy struct {
 	MinGap      int  // datagram deliveries that must pass fault-free after a datagram fault (isolated-loss class)
 	sinceFault  int
 	MaxDelay    time.Duration
+	// Burst > 1: one decision may perform up to Burst network events back to
+	// back, before the code under test gets to run: simultaneous arrival, so
+	// that handlers of different peers are runnable at the same time.
+	Burst int
 	// FilterLink lets a scenario hide links from the generic delivery events
 	// (e.g. a stalled peer's link is never delivered).
 	FilterLink func(ls simrt.LinkState) bool
@@ -244,6 +248,17 @@ func (r *Run) Step(p *NetPolicy, extra []Ev, idle time.Duration) bool {
 		return true
 	}
 	evs[c].Do()
+	if p.Burst > 1 && c < len(evs)-len(extra) {
+		k := r.Ch.Pick(p.Burst, "burst")
+		for ; k > 0; k-- {
+			more := r.NetEvents(p)
+			if len(more) == 0 {
+				break
+			}
+			r.Count("burst_events")
+			more[r.Ch.Pick(len(more), "burst-event")].Do()
+		}
+	}
 	return true
 }
 
